@@ -224,12 +224,17 @@ def run(ctx):
     cs += [dict(op='prefix', name=n) for n in from_spec]
     cs += conv_cases(tab, quick, rnd)
     judge(ctx, cs, 'catalogue')
+    from checks import c14
+    c14.doc_stage(ctx)
     ctx.exhaustive['catalogue units/prefixes/doc rows/unit pairs'] = True
 
 
 def replay(ctx, rp):
     r = rp['replay']
-    if r.get('kind') == 'catalogue-plain':
+    if r.get('kind') == 'affine':
+        from checks import c14
+        c14.replay(ctx, rp)
+    elif r.get('kind') == 'catalogue-plain':
         confirm_plain(ctx, r['cases'], 'replay')
     else:
         judge(ctx, [dict(r['case'])], 'replay', docs=False)
